@@ -166,6 +166,39 @@ static const LL table[] = {
 		 while (a.size() < sl) { uint8_t b = edge_byte(r); if (b != 0x20 && b != 0x09 && b != 0x0D && b != 0x0A) a.push_back(b); }
 	 },
 	 [](const Bytes &a, Bytes &d) { d.clear(); d.push_back(BIDIB_MSG_FW_UPDATE_OP_DATA); d.insert(d.end(), a.begin(), a.end()); }, false},
+	// --- remaining functions of the public low-level API (MSG_LC_CONFIGX_SET: [port0, port1, key1, value1, ... keyN, valueN])
+	{"lc_configx_set", MSG_LC_CONFIGX_SET,
+	 [](NA n, const Bytes &a) { Bytes p(a.begin() + 2, a.end()); bidib_send_lc_configx_set(n, a[0], a[1], (uint8_t) (p.size() / 2), p.data(), 0); },
+	 [](Rng &r, Bytes &a) { size_t np = (size_t) r.range(1, 8); gen_n(r, a, 2 + 2 * np); }, enc_id, false},
+	{"accessory_para_set_opmode", MSG_ACCESSORY_PARA_SET, [](NA n, const Bytes &a) { bidib_send_accessory_para_set_opmode(n, a[0], a[1], 0); },
+	 [](Rng &r, Bytes &a) { a = {(uint8_t) r.below(128), (uint8_t) r.below(128)}; },
+	 [](const Bytes &a, Bytes &d) { d = {a[0], 251 /* PARA_OPMODE */, a[1]}; }, false},
+	{"accessory_para_set_startup", MSG_ACCESSORY_PARA_SET, [](NA n, const Bytes &a) { bidib_send_accessory_para_set_startup(n, a[0], a[1], 0); },
+	 [](Rng &r, Bytes &a) { a = {(uint8_t) r.below(128), (uint8_t) (r.chance(250) ? 254 + r.below(2) : r.below(128))}; },
+	 [](const Bytes &a, Bytes &d) { d = {a[0], 252 /* PARA_STARTUP */, a[1]}; }, false},
+	{"accessory_para_set_macromap", MSG_ACCESSORY_PARA_SET,
+	 [](NA n, const Bytes &a) { Bytes m(a.begin() + 1, a.end()); bidib_send_accessory_para_set_macromap(n, a[0], (uint8_t) m.size(), m.data(), 0); },
+	 [](Rng &r, Bytes &a) { size_t k = (size_t) r.range(1, 16); a.clear(); a.push_back((uint8_t) r.below(128)); for (size_t i = 0; i + 1 < k; i++) a.push_back((uint8_t) r.below(255)); a.push_back(0xFF); },
+	 [](const Bytes &a, Bytes &d) { d.clear(); d.push_back(a[0]); d.push_back(253 /* PARA_MACROMAP */); d.insert(d.end(), a.begin() + 1, a.end()); }, false},
+	{"cs_rcplus_get_id", MSG_CS_RCPLUS, [](NA n, const Bytes &) { bidib_send_cs_rcplus_get_id(n, 0); }, G0, [](const Bytes &, Bytes &d) { d = {2 /* RC_GET_TID */}; }, false},
+	{"cs_rcplus_set_id", MSG_CS_RCPLUS,
+	 [](NA n, const Bytes &a) { t_rcplus_tid t; t.cid.mun_0 = a[0]; t.cid.mun_1 = a[1]; t.cid.mun_2 = a[2]; t.cid.mun_3 = a[3]; t.cid.mid = a[4]; t.sid = a[5]; bidib_send_cs_rcplus_set_id(n, t, 0); }, GN(6),
+	 [](const Bytes &a, Bytes &d) { d.clear(); d.push_back(3 /* RC_SET_TID */); d.insert(d.end(), a.begin(), a.end()); }, false},
+	{"cs_rcplus_ping_once_p0", MSG_CS_RCPLUS, [](NA n, const Bytes &) { bidib_send_cs_rcplus_ping_once_p0(n, 0); }, G0, [](const Bytes &, Bytes &d) { d = {4}; }, false},
+	{"cs_rcplus_ping_once_p1", MSG_CS_RCPLUS, [](NA n, const Bytes &) { bidib_send_cs_rcplus_ping_once_p1(n, 0); }, G0, [](const Bytes &, Bytes &d) { d = {5}; }, false},
+	{"cs_rcplus_bind", MSG_CS_RCPLUS,
+	 [](NA n, const Bytes &a) { t_rcplus_unique_id u; u.mun_0 = a[0]; u.mun_1 = a[1]; u.mun_2 = a[2]; u.mun_3 = a[3]; u.mid = a[4]; bidib_send_cs_rcplus_bind(n, u, a[5], a[6], 0); }, GN(7),
+	 [](const Bytes &a, Bytes &d) { d.clear(); d.push_back(0 /* RC_BIND */); d.insert(d.end(), a.begin(), a.end()); }, false},
+	{"cs_rcplus_find_p0", MSG_CS_RCPLUS,
+	 [](NA n, const Bytes &a) { t_rcplus_unique_id u; u.mun_0 = a[0]; u.mun_1 = a[1]; u.mun_2 = a[2]; u.mun_3 = a[3]; u.mid = a[4]; bidib_send_cs_rcplus_find_p0(n, u, 0); }, GN(5),
+	 [](const Bytes &a, Bytes &d) { d.clear(); d.push_back(6 /* RC_FIND | P0 */); d.insert(d.end(), a.begin(), a.end()); }, false},
+	{"cs_rcplus_find_p1", MSG_CS_RCPLUS,
+	 [](NA n, const Bytes &a) { t_rcplus_unique_id u; u.mun_0 = a[0]; u.mun_1 = a[1]; u.mun_2 = a[2]; u.mun_3 = a[3]; u.mid = a[4]; bidib_send_cs_rcplus_find_p1(n, u, 0); }, GN(5),
+	 [](const Bytes &a, Bytes &d) { d.clear(); d.push_back(7 /* RC_FIND | P1 */); d.insert(d.end(), a.begin(), a.end()); }, false},
+	{"fw_update_op_exit", MSG_FW_UPDATE_OP, [](NA n, const Bytes &) { bidib_send_fw_update_op_exit(n, 0); }, G0, [](const Bytes &, Bytes &d) { d = {0x01}; }, false},
+	{"fw_update_op_setdest", MSG_FW_UPDATE_OP, [](NA n, const Bytes &a) { bidib_send_fw_update_op_setdest(n, a[0], 0); },
+	 [](Rng &r, Bytes &a) { a = {(uint8_t) r.below(2)}; }, [](const Bytes &a, Bytes &d) { d = {0x02, a[0]}; }, false},
+	{"fw_update_op_done", MSG_FW_UPDATE_OP, [](NA n, const Bytes &) { bidib_send_fw_update_op_done(n, 0); }, G0, [](const Bytes &, Bytes &d) { d = {0x04}; }, false},
 	{"sys_enable", MSG_SYS_ENABLE, [](NA, const Bytes &) { bidib_send_sys_enable(0); }, G0, E0, true},
 	{"sys_disable", MSG_SYS_DISABLE, [](NA, const Bytes &) { bidib_send_sys_disable(0); }, G0, E0, true},
 };
